@@ -137,7 +137,7 @@ fn fam_lzma(ctx: &CaseCtx, cov: &mut Cov) -> CaseOut {
     cov.inc("trailing", which as u32);
     for rk in readers(&mut rng) {
         let api = rng.usize_below(3);
-        let sink = SharedSink::new();
+        let sink = SharedSink::varied(rng.next(), enc.output.len());
         let obs = sut::new_obs(u64::MAX);
         let (c, input, want) = match api {
             0 => {
@@ -264,7 +264,7 @@ fn fam_lzma2(ctx: &CaseCtx, cov: &mut Cov) -> CaseOut {
     input.extend_from_slice(&t);
     for rk in readers(&mut rng) {
         let raw = rng.chance(1, 2);
-        let sink = SharedSink::new();
+        let sink = SharedSink::varied(rng.next(), w.output.len());
         let obs = sut::new_obs(u64::MAX);
         let c = if raw {
             let mut d = Lzma2Decoder::new();
